@@ -121,11 +121,11 @@ impl Property for C05 {
         }
     }
     fn rule(&self) -> &'static str {
-        "each case: a generated valid instance (0-6 variables of all kinds incl. semi-kinds, bounds absent/finite/half-infinite/degenerate/fractional, 0-4 active and 0-3 removed constraints of both equality kinds with metadata, absent functions, extra constraints whose value is exactly +-1e-6*{0,0.5,0.999,1,1.001,2}, unused variables that are fixed (substituted_value) or dependent) and one state chosen from: complete in-bound / omitting unused variables / one value (possibly that of an echoed fixed variable) 2e-7 outside a finite bound end / 0.5e-7 outside / one used variable missing; one state in five also echoes fixed variables. The returned Solution (or Err) is compared with a reference evaluation in exact rationals; feasibility flags are recomputed from the reported values with the stated rule. Non-trivial = instance has >= 1 constraint or a non-constant objective; distinct = fingerprint of (encoded instance, state, scenario)."
+        "each case: a generated valid instance (0-6 variables of all kinds incl. semi-kinds, bounds absent/finite/half-infinite/degenerate/fractional, 0-4 active and 0-3 removed constraints of both equality kinds with metadata, absent functions, extra constraints whose value is exactly +-1e-6*{0,0.5,0.999,1,1.001,2}, unused variables that are fixed (substituted_value) or dependent) and one state chosen from: complete in-bound / omitting unused variables / one value (possibly that of an echoed fixed variable) 2e-7 outside a finite bound end / 0.5e-7 outside / one used variable missing; one state in five also repeats the values of fixed variables. The returned Solution (or Err) is compared with a reference evaluation in exact rationals; feasibility flags are recomputed from the reported values with the stated rule. Non-trivial = instance has >= 1 constraint or a non-constant objective; distinct = fingerprint of (encoded instance, state, scenario)."
     }
     fn assumptions(&self) -> Vec<&'static str> {
         vec![
-            "instances are valid (unique ids, defined variables, valid bounds); states never give a value for a dependent variable (one state in five gives in-bound or, in the out-of-bound scenarios, out-of-bound values for fixed variables: the fixed value is reported, the bound check applies)",
+            "instances are valid (unique ids, defined variables, valid bounds); states never give a value for a dependent variable (one state in five repeats the fixed value of fixed variables, as a Solution's state fed back does, or, in the 2e-7 scenario, gives one of them a value outside its bound: the bound check applies to every variable)",
             "values are compared bit-exactly where the dyadic certificate holds, within gamma_k*sum|c|prod|x| otherwise; flags are judged against the values the Solution itself reports",
             "out-of-bound probes sit at 2e-7 / 0.5e-7 beyond a finite bound end, never within 4 ulp of the 1e-7 threshold",
         ]
@@ -166,6 +166,13 @@ impl Property for C05 {
             }
         }
         let mut st = gen_state_in_bounds(rng, &inst, Some(&give), regime);
+        // an echoed fixed variable repeats its fixed value (a Solution's state fed back); which of two
+        // conflicting values would count is not part of the statement
+        for v in &inst.decision_variables {
+            if let (Some(fixed), true) = (v.substituted_value, st.entries.contains_key(&v.id)) {
+                st.entries.insert(v.id, fixed);
+            }
+        }
         // values for ids the instance does not define are legal in a state and must be kept
         if rng.chance(1, 5) {
             let extra = 7_000_000 + rng.below(100);
@@ -182,6 +189,9 @@ impl Property for C05 {
                     .decision_variables
                     .iter()
                     .filter(|v| st.entries.contains_key(&v.id))
+                    // an echoed fixed variable may be pushed clearly outside its bound (must be rejected like any
+                    // other); inside the tolerance its given value would conflict with the fixed one
+                    .filter(|v| v.substituted_value.is_none() || scenario == 5)
                     .filter(|v| {
                         let (l, u) = effective_bound(v);
                         l.is_finite() || u.is_finite()
